@@ -989,6 +989,38 @@ def prop_writer(fmt_i, n_i, buf_i, chunks, src_kind, long_name) -> bool:
     return got == members
 
 
+def prop_writer_trailer(k) -> bool:
+    """AioTarStream(mode w) closed after k blocks of members (offset = 512*k, any k): the archive ends
+    with at least two zero blocks (end-of-archive marker) and is a whole number of records; nothing
+    but NULs is appended. One inductive step of close() from an arbitrary block-aligned offset."""
+    from streamflow.deployment import aiotarstream
+
+    StubStream, StubSink = _stubs()
+    kk = _sel(list(range(W_TRAILER_K)), k)
+    if kk is None:
+        return True
+    sink = StubSink()
+    body = b"x" * (tarfile.BLOCKSIZE * kk)
+
+    async def scn():
+        tar = await aiotarstream.open(stream=sink, mode="w", format=tarfile.GNU_FORMAT).__aenter__()
+        await sink.write(body)
+        tar.offset = len(body)
+        await tar.close()
+
+    _run(scn())
+    out = sink.value()
+    if not sink.closed or out[: len(body)] != body:
+        return False
+    tail = out[len(body) :]
+    if len(tail) < 2 * tarfile.BLOCKSIZE or len(out) % tarfile.RECORDSIZE != 0:
+        return False
+    return tail == tarfile.NUL * len(tail) and len(tail) < 2 * tarfile.BLOCKSIZE + tarfile.RECORDSIZE
+
+
+W_TRAILER_K = 64
+
+
 def prop_writer_short_source(fmt_i, n_i, buf_i, short, src_kind) -> bool:
     """L3 for the writer: the source holds `short` < size bytes: addfile must raise (no spinning,
     no archive that silently contains a short member)."""
@@ -1299,6 +1331,16 @@ def specs(tier: str):
         f"prop_writer(fmt_i, n_i, buf_i, {chl4}, 1, fmt_i != 0)",
         f"as L5_writer_file_source with a chunked StreamWrapper source ({'GNU format, sizes 1/513, buffers None/7' if quick else 'sizes 1..1500, buffers None/7/513'}); {cw4}",
         "format, size selector, buffer selector, chunk sizes",
+        T_WRITE,
+    )
+    add(
+        "L5_writer_trailer",
+        G5,
+        "k: int",
+        [f"0 <= k < {W_TRAILER_K}"],
+        "prop_writer_trailer(k)",
+        f"AioTarStream mode 'w' closed at any block-aligned offset 512*k, k in 0..{W_TRAILER_K - 1} (three records: every residue of the offset modulo the record size): the archive ends with >= 2 zero blocks, only NULs are appended, total length a multiple of {tarfile.RECORDSIZE}",
+        "number of 512-byte blocks written before close",
         T_WRITE,
     )
     add(
